@@ -80,6 +80,11 @@ def strategy():
   return st.fixed_dictionaries({
       'config': st.sampled_from(['small'] * 6 + ['big', 'big', 'unregistered',
                                                  'custom', 'custom']),
+      # rarely: the algorithm needs more than 10 s for a suggestion (programs
+      # of this kind are cut to few calls, they cost a minute each)
+      # (the draw is bit-mixed: Hypothesis favours boundary integers)
+      'slow': st.integers(0, 2 ** 32 - 1).map(
+          lambda x: (((x + 12345) * 2654435761 % 2 ** 32) >> 8) % 100 < 1),
       'ops': st.tuples(prefix, st.lists(op, min_size=4, max_size=30)).map(
           lambda t: t[0] + t[1])})
 
@@ -101,6 +106,11 @@ def _factory():
     def __call__(self, problem_statement, algorithm, policy_supporter,
                  study_name):
       if algorithm == 'C08_CUSTOM':
+        algorithm = 'GRID_SEARCH'
+      if algorithm == 'C08_SLOW':
+        # an algorithm that computes for a while (a GP fit takes longer)
+        import time
+        time.sleep(10.5)
         algorithm = 'GRID_SEARCH'
       return self._stock(problem_statement, algorithm, policy_supporter,
                          study_name)
@@ -153,8 +163,8 @@ def _config(variant='small'):
   custom: an algorithm name only the configured custom policy factory knows."""
   from vizier.service import pyvizier as vz
   sc = vz.StudyConfig(
-      algorithm={'unregistered': 'NO_SUCH_ALGORITHM',
-                 'custom': 'C08_CUSTOM'}.get(variant, 'GRID_SEARCH'))
+      algorithm={'unregistered': 'NO_SUCH_ALGORITHM', 'custom': 'C08_CUSTOM',
+                 'slow': 'C08_SLOW'}.get(variant, 'GRID_SEARCH'))
   sc.search_space.root.add_int_param('i', 0, 3)
   sc.search_space.root.add_categorical_param('c', ['a', 'b'])
   if variant == 'big':
@@ -360,6 +370,10 @@ def _check_once(case):
   from harness import svc  # noqa: F401  (bootstrap)
   import json
   out = core.Out()
+  if case.get('slow'):
+    ops_ = [o for o in case['ops'] if o[0] != 'suggest'][:3]
+    case = dict(case, config='slow', ops=[['suggest', 1, 'w1']] + ops_)
+    out.cls('slow_algorithm')
   _setup()
   _COUNTER[0] += 1
   import os
@@ -589,6 +603,14 @@ def families(tier):
                                     'config_big', 'config_unregistered',
                                     'config_custom',
                                     'suggest_returned_empty')),
+      # one program per run whose algorithm needs more than 10 s for a
+      # suggestion (a minute of wall time; rare in `programs` for that reason)
+      core.Family('slow_algorithm', check, enumerate=lambda tier: [
+          {'config': 'small', 'slow': True,
+           'ops': [['get_trial', 1], ['complete', 1, 'measurement', 1.0],
+                   ['optimal']]}][:1 if tier == 'quick' else 1],
+                  shards={'quick': 1, 'thorough': 1},
+                  required_classes=('slow_algorithm',)),
       core.Family('parallel_clients', check_parallel,
                   strategy=parallel_strategy,
                   budget={'quick': 8, 'thorough': 64},
